@@ -113,6 +113,9 @@ CFGS = {
     "t4-narrow": ({"weight_min": -0.25, "weight_max": 0.75}, None, (-0.25, 0.75)),
     "t4-posmin": ({"weight_min": 0.25, "weight_max": 0.75}, None, (0.25, 0.75)),
     "graph-inverted": ({}, {"weight_min": 1.0, "weight_max": -1.0}, None),
+    # a bound that is exactly 0 (falsy): must not be read as "unset"
+    "t4-zero-min": ({"weight_min": 0.0, "weight_max": 0.75}, None, (0.0, 0.75)),
+    "graph-zero-max": ({}, {"weight_min": -0.5, "weight_max": 0.0}, (-0.5, 0.0)),
 }
 
 
